@@ -93,7 +93,15 @@ func ViewOf(w *world.World, op int) View {
 		sub   string
 	}
 	last := map[key]int{}
+	var expanded []int
 	for _, ai := range list {
+		if w.Args[ai].Kind == world.ArgTypedMulti {
+			expanded = append(expanded, w.Args[ai].Multi...)
+			continue
+		}
+		expanded = append(expanded, ai)
+	}
+	for _, ai := range expanded {
 		a := w.Args[ai]
 		switch a.Kind {
 		case world.ArgNamed, world.ArgTyped:
